@@ -86,24 +86,35 @@ impl TokenPlan {
     }
 }
 
-pub fn gen_key(t: &mut Tape) -> KeyPlan {
+/// keys are made pairwise distinct by construction: the low byte of the seed is a position tag
+/// (a reused next key would make blocks legitimately interchangeable - a misuse of the API that
+/// the library's own `append` never commits since it draws a fresh key per block)
+pub fn gen_key(t: &mut Tape, tag: u8) -> KeyPlan {
     KeyPlan {
         alg: if t.chance(1, 3) { Alg::P256 } else { Alg::Ed },
-        seed: t.u64(),
+        seed: (t.u64() << 8) | tag as u64,
     }
 }
 
 pub fn gen_token_plan(t: &mut Tape, cfg: &GenCfg, max_steps: usize) -> TokenPlan {
-    let keys = gen_keys(t, cfg.n_keys);
-    let root = gen_key(t);
+    gen_token_plan_tagged(t, cfg, max_steps, 0)
+}
+
+/// `salt` separates the key spaces of two plans generated for the same case (0, 64, 128)
+pub fn gen_token_plan_tagged(t: &mut Tape, cfg: &GenCfg, max_steps: usize, salt: u8) -> TokenPlan {
+    let mut keys = gen_keys(t, cfg.n_keys);
+    for (i, k) in keys.iter_mut().enumerate() {
+        k.seed = (k.seed << 8) | (salt + 32 + i as u8) as u64;
+    }
+    let root = gen_key(t, salt);
     let root_key_id = if t.chance(1, 4) { Some(t.raw() as u32) } else { None };
-    let first_next = gen_key(t);
+    let first_next = gen_key(t, salt + 1);
     let authority = gen_block(t, cfg);
     let n = t.weighted(&[3, 4, 3, 2, 1, 1][..(max_steps + 1).min(6)]);
     let mut steps = vec![];
-    for _ in 0..n {
+    for i in 0..n {
         let block = gen_block(t, cfg);
-        let next = gen_key(t);
+        let next = gen_key(t, salt + 2 + i as u8);
         if t.chance(1, 3) {
             steps.push(Step::Third {
                 block,
